@@ -403,7 +403,7 @@ M("c08-no-revalidation", "C08", LP,
 
 # ----------------------------------------------------------------------------- C09
 M("c09-gradient-from-unnegated", "C09", SCIPY,
-  '''    cache["grad_fn"] = compile_jacobian([obj_expr], variables)''', '''    cache["grad_fn"] = compile_jacobian([problem.objective], variables)''', "R09.1", "obj_fn/grad_fn")
+  '''    cache["grad_fn"] = compile_jacobian([obj_expr], variables)''', '''    cache["grad_fn"] = compile_jacobian([problem.objective], variables)''', "R09.2", "compile_jacobian")
 M("c09-bounds-other-order", "C09", SCIPY,
   '''    bounds = []
     for v in variables:
